@@ -109,15 +109,18 @@ def parse_summary(text, fmt):
     return row[0], row[1], row[2], verdict
 
 
-def check_profile(profile, render: bool, via="inject", lengths=None):
+def check_profile(profile, render: bool, via="inject", lengths=None, files=None, mode="once"):
     report = _report()
     if via == "inject":
         report.quality_profile = lambda p=list(profile): list(p)
     else:
-        report = _real_report(lengths)
+        r = call_sut(_real_report, lengths, files, mode)
+        if r[0] == "exc":
+            return (f"real-report:{r[1]}", r[2])
+        report = r[1]
         got = report.quality_profile()
         if list(got) != list(profile):
-            return ("real-profile", f"lengths {lengths}: quality_profile {got} != {profile}")
+            return ("real-profile", f"lengths {lengths} in files {files} ({mode}): quality_profile {got} != {profile}")
     r = call_sut(report.quality_profile_percentage)
     if r[0] == "exc":
         return (r[1], f"profile {profile}: {r[2]}")
@@ -150,28 +153,63 @@ def check_profile(profile, render: bool, via="inject", lengths=None):
     return None
 
 
-def _real_report(lengths):
+REAL_PATHS = ["a.py", "src/b.py", "src/core/engine/run.py", "lib/c.js", "lib/deep/er/d.ts"]
+REAL_MODES = ["once", "once", "late", "twice", "roundtrip", "roundtrip-twice"]
+
+
+def _real_report(lengths, files=None, mode="once"):
+    """A report over a real Codebase. files: [[path, [lengths...]], ...] (default: everything in one file); mode: how the
+    codebase came about - aggregated once (scan), some files added after the aggregation, aggregated twice, or written
+    and read back (report / findings), optionally aggregated again."""
     from codelimit.common.Codebase import Codebase
     from codelimit.common.Location import Location
     from codelimit.common.Measurement import Measurement
     from codelimit.common.SourceFileEntry import SourceFileEntry
     from codelimit.common.report.Report import Report
+    from codelimit.common.report.ReportReader import ReportReader
+    from codelimit.common.report.ReportWriter import ReportWriter
 
+    files = files or [["a.py", list(lengths)]]
     cb = Codebase("/")
-    ms = [Measurement(f"f{i}", Location(1, 1), Location(2, 1), v) for i, v in enumerate(lengths)]
-    cb.add_file(SourceFileEntry("a.py", "x", "Python", sum(lengths), ms))
+    late = files[len(files) // 2 :] if mode == "late" and len(files) > 1 else []
+    early = files[: len(files) - len(late)]
+
+    def add(path, ls):
+        ms = [Measurement(f"f{i}", Location(1 + 100 * i, 1), Location(2 + 100 * i, 1), v) for i, v in enumerate(ls)]
+        lang = {"py": "Python", "js": "JavaScript", "ts": "TypeScript"}[path.rsplit(".", 1)[1]]
+        cb.add_file(SourceFileEntry(path, "x", lang, sum(ls), ms))
+
+    for path, ls in early:
+        add(path, ls)
     cb.aggregate()
-    return Report(cb)
+    for path, ls in late:
+        add(path, ls)
+    if mode == "twice":
+        cb.aggregate()
+    report = Report(cb)
+    if mode.startswith("roundtrip"):
+        report = ReportReader.from_json(ReportWriter(report).to_json())
+        if mode.endswith("twice"):
+            report.codebase.aggregate()
+    return report
 
 
 def run_case(case):
-    return check_profile(tuple(case["profile"]), case.get("render", True), case.get("via", "inject"), case.get("lengths"))
+    return check_profile(tuple(case["profile"]), case.get("render", True), case.get("via", "inject"), case.get("lengths"), case.get("files"), case.get("mode", "once"))
 
 
 def shrink_candidates(case):
     p = list(case["profile"])
     if case.get("via", "inject") != "inject":
         ls = case["lengths"]
+        if case.get("files"):
+            fs = case["files"]
+            for i in range(len(fs)):
+                for j in range(len(fs[i][1])):
+                    g = [[p, list(v)] for p, v in fs]
+                    del g[i][1][j]
+                    yield _lengths_case([v for _, vs in g for v in vs], g, case.get("mode", "once"))
+            return
         for i in range(len(ls)):
             ls2 = ls[:i] + ls[i + 1 :]
             yield _lengths_case(ls2)
@@ -184,11 +222,14 @@ def shrink_candidates(case):
                 yield {"profile": q, "render": case.get("render", True)}
 
 
-def _lengths_case(ls):
+def _lengths_case(ls, files=None, mode="once"):
     prof = [0, 0, 0, 0]
     for v in ls:
         prof[0 if v <= 15 else 1 if v <= 30 else 2 if v <= 60 else 3] += v
-    return {"profile": prof, "via": "real", "lengths": list(ls), "render": True}
+    case = {"profile": prof, "via": "real", "lengths": list(ls), "render": True}
+    if files is not None:
+        case.update(files=files, mode=mode)
+    return case
 
 
 # --------------------------------------------------------------------------- shards
@@ -298,12 +339,24 @@ _LEN = st.one_of(
 
 
 def gen_real(col, seed, n):
-    def body(ls):
-        case = _lengths_case(ls)
-        nz = sum(1 for x in case["profile"] if x > 0)
-        col.eval(case, nontrivial=nz >= 2, labels=["via:real-codebase"])
+    @st.composite
+    def cases(draw):
+        ls = draw(st.lists(_LEN, min_size=0, max_size=40))
+        if draw(st.integers(0, 3)) == 0:
+            return _lengths_case(ls)
+        k = draw(st.integers(1, 4))
+        paths = draw(st.permutations(REAL_PATHS))[:k]
+        files = [[p, []] for p in paths]
+        for v in ls:
+            files[draw(st.integers(0, k - 1))][1].append(v)
+        return _lengths_case([v for _, vs in files for v in vs], files, draw(st.sampled_from(REAL_MODES)))
 
-    run_given(body, st.lists(_LEN, min_size=0, max_size=40), seed, n)
+    def body(case):
+        nz = sum(1 for x in case["profile"] if x > 0)
+        nfiles = sum(1 for _, vs in case.get("files", [["a.py", case["lengths"]]]) if vs)
+        col.eval(case, nontrivial=nz >= 2, labels=["via:real-codebase", f"real-mode:{case.get('mode', 'once')}", "real-files:" + ("1" if nfiles <= 1 else "2+")])
+
+    run_given(body, cases(), seed, n)
 
 
 def plan(tier, seed):
